@@ -198,7 +198,7 @@ def _run_item(cfg, rec):
                           z3.Implies(z3.Not(protected), z3.BoolVal(isinstance(exc, ValueError) and not wrote)),
                           f"overwrite:{cfg['fn']}:unknown-format"))
         rec.check_all(ctx, items, wit)
-        rec.sample({"item": cfg["name"], "pc": [str(c) for c in ctx.pc], "raised": type(exc).__name__ if exc else None,
+        rec.want_sample() and rec.sample({"item": cfg["name"], "pc": [str(c) for c in ctx.pc], "raised": type(exc).__name__ if exc else None,
                     "plugin_writes": len(fs.writes), "mkdirs": fs.mkdirs})
     if len(rec.validations) < 3:
         rec.validations.append((cfg["name"], {"__item": cfg}, {"ok": True}))
@@ -251,7 +251,7 @@ def _run_protect(rec):
                  ("protect_from_overwrite never creates the target itself", z3.BoolVal(all(not m.endswith("target.dat") for m in fs.mkdirs)),
                   "overwrite:protect:mkdir-target")]
         rec.check_all(ctx, items, wit)
-        rec.sample({"pc": [str(c) for c in ctx.pc], "raised": type(exc).__name__ if exc else None, "mkdirs": fs.mkdirs})
+        rec.want_sample() and rec.sample({"pc": [str(c) for c in ctx.pc], "raised": type(exc).__name__ if exc else None, "mkdirs": fs.mkdirs})
 
 
 def run_config(batch, rec):
@@ -449,7 +449,7 @@ def _run_runs(cfg, rec):
                     rec.candidates.append((fp, name, {"env": dict(vals, d0=vals.get("base", "a") + "_run_" + cfg["digits"][0], present0=True), "what": what}))
                 else:
                     rec.inconclusive.append(f"{cfg['name']}: {name}: string solver unknown")
-                rec.sample({"what": what, "obligation": name, "status": status})
+                rec.want_sample() and rec.sample({"what": what, "obligation": name, "status": status})
             rec.witnessed += 1
             return
     except I.EncodingLost as ex:
@@ -503,7 +503,7 @@ def _run_runs(cfg, rec):
             rec.candidates.append((fp, name, {"env": vals, "what": what}))
         else:
             rec.inconclusive.append(f"{cfg['name']}: {name}: string solver unknown")
-        rec.sample({"what": what, "obligation": name, "status": status})
+        rec.want_sample() and rec.sample({"what": what, "obligation": name, "status": status})
     rec.witnessed += 1
 
 
